@@ -99,13 +99,15 @@ def signature(case, out):
     if not f:
         return "%s (%s): fault-free transfer returns but destination != source" % (fam, opts(case))
     if f[0] == "stall":
+        if out.get("transport") == "ssh":
+            fam += " over a real Channel"
         return ("%s returns normally although the connection was gone before close() started and the statuses of the last "
                 "pipelined WRITEs were never received (server holds fewer chunks than the source)" % fam)
     if f[0] == "write":
         how = ("its status was read but raised nothing" if out.get("write_status_examined", out.get("fault_status_examined"))
                else "its status is discarded unread")
         if out.get("close_plan", "ok") != "ok":
-            how += "; " + plan_class(out["close_plan"])
+            how += "; " + plan_class(out["close_plan"]) + (" (real Channel)" if out.get("transport") == "ssh" else "")
         if case.get("sync") and not out.get("write_status_examined", out.get("fault_status_examined")) and out.get("sync_before_rejected_write") is False:
             how = "its status was taken off the wire by an interleaved synchronous request and never examined"
         if fam == "put/putfo":
@@ -390,8 +392,45 @@ def run(ctx):
                         ctx.case(case)
                         ctx.count("put_file_grown_after_stat_cells")
                         judge(ctx, case, o)
+        # ---- connection gone before close(), over a REAL Transport pair (the Channel's own closed state) ----
+        rsizes = [100000] if ctx.quick else [40000, 100000, 327680]
+        j = 0
+        for size in rsizes:
+            nw = -(-size // 32768)
+            faults = [["write", min(1, nw - 1), 3], ["write", nw - 1, 4], ["stall", 0], ["stall", nw - 1]]
+            if not ctx.quick:
+                faults += [["write", 0, 4], ["stall", nw // 2], ["write", nw // 2, 8]]
+            for op, confirm in (("put", False), ("putfo", False), ("putfo", True), ("pfile", None)):
+                for fault in faults:
+                    j += 1
+                    if not ctx.mine(j) or time.time() > end:
+                        continue
+                    case = dict(op=op, size=size, cseed=9000 + j + ctx.seed, confirm=confirm, fault=fault,
+                                close="gone_before_close", nwrites=nw, bufsize=-1, wsize=32768, callback=True)
+                    try:
+                        o = X.run_case_ssh(case, root)
+                    except Exception:
+                        import traceback
+
+                        ctx.inconclusive("ssh harness error: " + traceback.format_exc()[-500:])
+                        continue
+                    if o["status"] == "ok" and not (o.get("client_channel_reported_closed") and o.get("fault_delivered")):
+                        ctx.case(case, nontrivial=False)
+                        ctx.count("fault_not_reached")
+                        continue
+                    ctx.case(case, sample=dict(case, observed={x: o.get(x) for x in ("outcome", "exc", "exc_text", "stalled_writes",
+                                                                                   "client_channel_reported_closed")})
+                             if fault[0] == "stall" and len(ctx.samples) < 6 else None)
+                    ctx.count("gone_before_close_cells_over_real_channel")
+                    ctx.count("real_channel_cells_%s" % ("stalled_writes" if fault[0] == "stall" else "rejected_write"))
+                    judge(ctx, case, o)
+                    if fault[0] == "write" and o["status"] == "ok" and o.get("outcome") == "raised":
+                        ctx.count("real_channel_rejected_write_raised_" + o["exc"])
     finally:
         shutil.rmtree(root, ignore_errors=True)
+    ctx.require("gone_before_close_cells_over_real_channel", ctx.pick(10, 60))
+    ctx.require("real_channel_cells_stalled_writes", ctx.pick(4, 25))
+    ctx.require("real_channel_cells_rejected_write", ctx.pick(4, 25))
     ctx.require("declared_size_cells", ctx.pick(120, 400))
     for cls in ("zero", "exact", "smaller_by_1", "smaller_by_chunk", "half", "larger"):
         ctx.require("declared_size_" + cls, ctx.pick(12, 40))
